@@ -2,7 +2,8 @@
 """regenerate MANIFEST.json from checks.json + not_applicable.json"""
 import json, os
 V = os.path.dirname(os.path.dirname(os.path.abspath(__file__)))
-checks = json.load(open(os.path.join(V, "checks.json")))
+import glob
+checks = {os.path.basename(p)[:-5]: json.load(open(p)) for p in sorted(glob.glob(os.path.join(V, "checks.d", "*.json")))}
 na = json.load(open(os.path.join(V, "not_applicable.json"))) if os.path.exists(os.path.join(V, "not_applicable.json")) else []
 props = [json.loads(l)["id"] for l in open(os.path.join(V, "properties.jsonl"))]
 engines = {
